@@ -35,8 +35,12 @@ impl Drop for CancelGuard {
     }
 }
 
+/// the cell of the scripted actor (recorded when its first callback starts): lets the scenario look at an actor whose spawn never returned
+static LAST_CELL: std::sync::Mutex<Option<ractor::ActorCell>> = std::sync::Mutex::new(None);
+
 async fn run_step(script: &Script, log: &Log, observer: &Option<ractor::ActorCell>, name: &'static str, myself: &ActorRef<u64>) -> Result<(), ActorProcessingErr> {
     log.lock().unwrap().push(format!("start:{}", name));
+    *LAST_CELL.lock().unwrap() = Some(myself.get_cell());
     let step = script.lock().unwrap().get_mut(name).and_then(|q| q.pop_front()).unwrap_or(Step { outcome: "ok".into(), yields: 0, actions: vec![] });
     let mut guard = CancelGuard { name, log: log.clone(), done: false };
     for a in step.actions.iter() {
@@ -185,6 +189,44 @@ pub fn run(a: &Args) {
             None
         };
         let actor = Scripted { script: script.clone(), log: log.clone(), observer: observer.clone() };
+        if a.opt_u128("cancel_start").unwrap_or(0) == 1 {
+            // the spawning future is dropped while pre_start is still pending (the script lets pre_start yield for long)
+            let cancelled = {
+                let fut = async {
+                    if with_sup {
+                        Actor::spawn_linked(name.clone(), actor, (), sup.get_cell()).await.map(|_| ())
+                    } else {
+                        Actor::spawn(name.clone(), actor, ()).await.map(|_| ())
+                    }
+                };
+                tokio::pin!(fut);
+                tokio::select! {
+                    biased;
+                    _ = &mut fut => false,
+                    _ = async { for _ in 0..5 { tokio::task::yield_now().await; } } => true,
+                }
+            };
+            log.lock().unwrap().push(format!("start_cancelled:{}", cancelled as u8));
+            for _ in 0..20 {
+                tokio::task::yield_now().await;
+            }
+            tokio::time::sleep(std::time::Duration::from_millis(20)).await;
+            if let Some(n) = name.as_ref() {
+                log.lock().unwrap().push(format!("name_registered:{}", ractor::registry::where_is(n.clone()).is_some() as u8));
+            }
+            log.lock().unwrap().push(format!("sup_children:{}", sup.get_children().len()));
+            if let Some(o) = observer.as_ref() {
+                log.lock().unwrap().push(format!("obs_children:{}", o.get_children().len()));
+            }
+            if let Some(c) = LAST_CELL.lock().unwrap().as_ref() {
+                log.lock().unwrap().push(format!("final_status:{}", c.get_status() as u8));
+                log.lock().unwrap().push(format!("pid_registered:{}", ractor::registry::where_is_pid(c.get_id()).is_some() as u8));
+                log.lock().unwrap().push(format!("has_supervisor:{}", c.try_get_supervisor().is_some() as u8));
+                log.lock().unwrap().push(format!("send_refused:{}", ActorRef::<u64>::from(c.clone()).cast(1).is_err() as u8));
+            }
+            println!("log={}", log.lock().unwrap().join(","));
+            return;
+        }
         let res = if a.opt_u128("tl").unwrap_or(0) == 1 {
             use ractor::thread_local::{ThreadLocalActor, ThreadLocalActorSpawner};
             let spawner = ThreadLocalActorSpawner::new();
